@@ -94,7 +94,7 @@ class Ctx:
 
     # ---------------------------------------------------------------- trace validation (T)
     def validate(self, module, traces, consts="", name=None, batch=None, nblocks=64, env=None,
-                 nontrivial=None, sample_every=None, extra_data=None, **kw):
+                 nontrivial=None, sample_every=None, extra_data=None, extension=False, **kw):
         """Ship `traces` (list of dicts with at least 'input'/'events' and 'meta') to the trace
         spec `module`; returns {index: verdict}. Verdict strings come from TLC."""
         if not traces:
@@ -143,6 +143,26 @@ class Ctx:
             self._account(res, name or res.module)
             for k, text in v.items():
                 out[b0 + k - 1] = text
+        if extension:
+            # behaviour specified beyond the listed property: tallied and reported apart, never a verdict on the property
+            tally = {"module": module, "accepted": 0, "out_of_domain": 0, "rejected": {}}
+            for i, t in enumerate(traces):
+                v = out[i]
+                if v.startswith("ACCEPT"):
+                    tally["accepted"] += 1
+                elif v.startswith("OOD"):
+                    tally["out_of_domain"] += 1
+                elif v.startswith("REJECT"):
+                    c = v[len("REJECT"):].strip()
+                    tally["rejected"][c] = tally["rejected"].get(c, 0) + 1
+                else:
+                    raise tlc.TLCFailure("unparseable verdict %r" % v)
+            self.notes.setdefault("extension_traces", []).append(tally)
+            for c, n in sorted(tally["rejected"].items()):
+                msg = "%s: %s (%d traces)" % (module, c, n)
+                self.notes.setdefault("extension_violations", []).append(msg)
+                print("EXTENSION-NOTE: property=%s (specified beyond the listed property; not a verdict on it) %s" % (self.pid, msg))
+            return out
         for i, t in enumerate(traces):
             self.record(t, out[i], nontrivial=nontrivial)
         return out
